@@ -111,8 +111,18 @@ def atmos(env):
     a = env.comp("atm", lambda: cls("common.atmos_comp.AtmosComp")())
     r = env.comp("re", lambda: cls("common.reynolds_comp.ReynoldsComp")())
     ins = a.inputs()
+    from .c16 import runs
+    import openaerostruct.common.atmos_comp as AC
+    alt = ins["altitude"]
+    table = dict(T="T_interp", P="P_interp", rho="rho_interp", speed_of_sound="a_interp", mu="viscosity_interp")
+    # on a fresh component and on a live one last evaluated at another altitude or Mach number
+    for lab, o in runs(env, "atm", a.factory, ins):
+        env.eq("C17", "v == Mach * speed of sound" + lab, s0(o["v"]), s0(ins["Mach_number"]) * s0(o["speed_of_sound"]))
+        for nm, f in table.items():
+            # the module's interpolant (its helper contract in the symbolic run), evaluated at the current altitude
+            env.eq("C17", "%s is the tabulated value at the current altitude%s" % (nm, lab), s0(o[nm]),
+                   s0(env.call(lambda h_, f=f: getattr(AC, f)(h_), alt)))
     o = a.compute(ins)
-    env.eq("C17", "v == Mach * speed of sound", s0(o["v"]), s0(ins["Mach_number"]) * s0(o["speed_of_sound"]))
     rin = r.inputs()
     env.eq("C17", "Reynolds number per length == rho v / mu", s0(r.compute(rin)["re"]) * s0(rin["mu"]), s0(rin["rho"]) * s0(rin["v"]))
     # wiring of AtmosGroup: the Reynolds component reads the atmosphere's own rho, mu, v (same units, no conversion)
